@@ -117,7 +117,47 @@ def str_transform(it, fr, s, attr, args, kw):
             cons.append(CT.char_domain(c))
         eng.add(*cons)
         return SStr(n2, chars, '')
+    if attr == 'replace' and len(args) == 2 and isinstance(args[0], str) and len(args[0]) == 1 and isinstance(args[1], str) and len(args[1]) <= 1:
+        old = ord(args[0])
+        if args[1] == '':
+            return filter_chars(it, s, lambda c: z3.Not(CT.char_is(c, old)))
+        new = ord(args[1])
+        chars = [eng.fresh('repl_c', z3.IntSort()) for _ in range(s.L)]
+        cons = []
+        for c, d in zip(s.chars, chars):
+            cons.append(z3.If(CT.char_is(c, old), CT.char_is(d, new), CT.char_eq(d, c)))
+            cons.append(CT.char_domain(d))
+        eng.add(*cons)
+        return SStr(s.n, chars, '')
+    if attr == 'split' and not args and not kw:
+        return SplitWS(s)
     raise Unsupported('str.' + attr + ' on a symbolic string')
+
+
+class SplitWS(Sym):
+    """result of s.split() (whitespace split) of a symbolic string; only "".join(...) of it is modelled"""
+    pytype = list
+
+    def __init__(s, src):
+        s.src = src
+
+
+def filter_chars(it, s, keep):
+    """the string of the characters of s that satisfy keep, in order (exact compaction)"""
+    eng = it.eng
+    L = s.L
+    pos = z3.IntVal(0)
+    chars = [eng.fresh('flt_c', z3.IntSort()) for _ in range(L)]
+    cons = [CT.char_domain(c) for c in chars]
+    for i, c in enumerate(s.chars):
+        k = z3.And(i < s.n, keep(c))
+        for j in range(i + 1):
+            cons.append(z3.Implies(z3.And(k, pos == j), CT.char_eq(chars[j], c)))
+        p2 = eng.fresh('flt_p', z3.IntSort())
+        cons.append(p2 == z3.If(k, pos + 1, pos))
+        pos = p2
+    eng.add(*cons)
+    return SStr(pos, chars, '')
 
 
 # ---------------------------------------------------------------------------
